@@ -28,6 +28,7 @@ import (
 	"os"
 	"os/exec"
 	"path/filepath"
+	"regexp"
 	"sort"
 		"strconv"
 	"strings"
@@ -54,6 +55,8 @@ const (
 	deadline = 20 * time.Second // per call; a real parser call takes microseconds
 	asLimit  = 4 << 30          // address-space limit of the child process that runs the real parsers
 )
+
+var reRequested = regexp.MustCompile(`cannot allocate (\d+)-byte block`)
 
 type probe struct {
 	Entry string `json:"entry"`
@@ -88,12 +91,24 @@ func (h *harness) judge(entry string, in []byte, r resp) string {
 		return "timeout"
 	case "died":
 		kind := "crash:" + entry
+		key := map[string]interface{}{"entry": entry, "fatal": true, "cause": "unknown"}
 		if strings.Contains(r.out, "out of memory") || strings.Contains(r.out, "cannot allocate memory") {
 			kind = "alloc:" + entry
+			// the failing allocation is identified from the stack of the fatal error
+			switch {
+			case strings.Contains(r.extra, "reflect.MakeMapWithSize") && strings.Contains(r.extra, "encoding/gob.(*Decoder).decodeMap"):
+				key["cause"] = "gob_map_size" // map element count read from the gob stream
+			case strings.Contains(r.extra, "encoding/gob."):
+				key["cause"] = "gob_other"
+			}
+			if m := reRequested.FindStringSubmatch(r.out); m != nil {
+				if n, err := strconv.ParseUint(m[1], 10, 64); err == nil {
+					key["requested_bytes"] = n
+				}
+			}
 		}
 		h.s.Violate(kit.Violation{Kind: kind, What: "the process running the parser died (fatal error; address space limited to " + strconv.Itoa(asLimit>>30) + " GiB)",
-			Input: mkProbe(entry, in), Expected: "value or error, memory proportional to the input", Observed: r.out,
-			Key: map[string]interface{}{"entry": entry, "fatal": true}})
+			Input: mkProbe(entry, in), Expected: "value or error, memory proportional to the input", Observed: r.out, Key: key})
 		return "died"
 	}
 	if r.alloc > h.maxA[entry][0] {
@@ -102,7 +117,7 @@ func (h *harness) judge(entry string, in []byte, r resp) string {
 	if r.alloc > allocA*uint64(len(in))+allocB {
 		h.s.Violate(kit.Violation{Kind: "alloc:" + entry, What: "allocation volume out of proportion to the input", Input: mkProbe(entry, in),
 			Expected: fmt.Sprintf("<= %d*%d+%d bytes", allocA, len(in), allocB), Observed: fmt.Sprint(r.alloc),
-			Key: map[string]interface{}{"entry": entry, "fatal": false}})
+			Key: map[string]interface{}{"entry": entry, "fatal": false, "cause": "unknown", "allocated_bytes": r.alloc}})
 	}
 	if r.status == "panic" {
 		h.s.Violate(kit.Violation{Kind: "panic:" + entry, What: "parser panicked", Input: mkProbe(entry, in), Expected: "value or error", Observed: r.out,
